@@ -40,7 +40,7 @@ def run_plan(ctx: Ctx, plan, shards_per_group=None, procs=16, budget=30, fingerp
     jobs = []
     total_cases = sum(len(g['cases']) for g in plan)
     for gi, g in enumerate(plan):
-        cases = dedupe([[op, [list(k) for k in keys], list(params)] for op, keys, params in g['cases']])
+        cases = dedupe([[op, [k if isinstance(k, dict) else list(k) for k in keys], list(params)] for op, keys, params in g['cases']])
         if not cases:
             continue
         # shard proportionally so that the 16 driver processes are busy
@@ -50,7 +50,7 @@ def run_plan(ctx: Ctx, plan, shards_per_group=None, procs=16, budget=30, fingerp
             jobs.append({'u': g['u'], 'opts': g.get('opts', {}), 'cases': shard,
                          'out': os.path.join(tdir, f'g{gi}_{tag}_{si}.ndjson'), 'prefix': f'g{gi}.{si}',
                          'fresh': g.get('fresh', False), 'budget': budget, 'extra': g.get('extra'),
-                         'revisit': g.get('revisit', 0.25), 'seed': ctx.seed + gi * 131 + si})
+                         'revisit': g.get('revisit', 0.25), 'seed': ctx.seed + gi * 131 + si, 'witness': g.get('witness', False)})
     results = run_jobs(jobs, procs)
     files = [r['out'] for r in results if r['events']]
     skipped = [s for r in results for s in r['skipped']]
